@@ -21,7 +21,7 @@ ENGINE = "PEX"
 TECHNIQUE = ("exhaustive enumeration of all term graphs up to a node bound, built by real unifications; every "
              "cyclic-term builtin compared with graph algorithms computing the infinite-tree semantics")
 RULE = ("all graphs over k nodes with node kinds {f/1, g/2, list cell, string segment \"ab\"+tail, atom, variable} and "
-        "children drawn from the k nodes (26^3 graphs for k=3); observations for every root and ordered root pair, "
+        "children drawn from the k nodes (26^3 graphs for k=3; plus 3 structural nodes over {f, cell, str} with a 4th leaf node: 24^3 x 2); observations for every root and ordered root pair, "
         "and against an independently built isomorphic twin. Non-trivial: the graph reachable from node 1 has a cycle.")
 LEVEL_TEXT = ("every term graph up to the node bound is built on the real machine and every listed builtin is compared "
               "with its infinite-tree definition; acyclic_term/1 must leave the term == to its untouched twin")
@@ -54,6 +54,12 @@ def shards(tier):
     ch3 = node_choices(3, KINDS)
     for i in range(len(ch3)):
         sh.append(["k", 3, i])
+    # three structural nodes + one leaf node (an atom or a variable) that any of
+    # them may point to: the smallest shape with a cycle through the head of a
+    # list cell whose tail is a finite term
+    ch = node_choices(4, ["f", "cell", "str"] + (["g"] if tier == "thorough" else []))
+    for i in range(len(ch)):
+        sh.append(["k3leaf", 4, i])
     if tier == "thorough":
         ch4 = node_choices(4, ["f", "cell", "str", "var"])
         for i in range(len(ch4)):
@@ -63,6 +69,14 @@ def shards(tier):
 
 def graphs(shard):
     kind, k, first = shard
+    if kind == "k3leaf":
+        base = node_choices(4, ["f", "cell", "str"])
+        full = base + node_choices(4, ["g"])
+        head = full[first]
+        for rest in itertools.product(base if first < len(base) else full, repeat=2):
+            for leaf in (("atom",), ("var",)):
+                yield [head] + list(rest) + [leaf]
+        return
     kinds = KINDS if kind == "k" else ["f", "cell", "str", "var"]
     ch = node_choices(k, kinds)
     if first is None:
